@@ -88,6 +88,8 @@ type run struct {
 	rng   *rand.Rand
 	nrep  int
 	heldQ []heldQuery
+	// noStray: no unknown-ID replies (the wrap cell uses the whole 16-bit ID space)
+	noStray bool
 }
 
 type heldQuery struct {
@@ -232,6 +234,18 @@ func (r *run) onWrite(c *fakenet.Conn, data []byte) error {
 			// ignored without affecting the following reply
 			c.Inject(make([]byte, 1+int(r.cell.Seed+int64(n))%11))
 			rep.Count("runt_datagrams_injected_before_reply", 1)
+		}
+		if r.cell.Transport != "reuse" && !r.noStray && (r.cell.Seed+int64(n))%3 == 2 {
+			// a well-formed reply whose ID matches no outstanding query (the late answer to
+			// a query its caller has abandoned) right before the real reply: it must be
+			// dropped without affecting the connection or the reply behind it
+			sq := append(wire.EncodeName(fmt.Sprintf("stray%d.c02.test.", n)), 0, 1, 0, 1)
+			stray := dnsadv.Reply(qi.WireID^0x8000, 0x8180, sq, fmt.Sprintf("stray/%d", n), 0, 0)
+			if c.Stream {
+				stray = wire.Frame(stray)
+			}
+			c.Inject(stray)
+			rep.Count("unknown_id_replies_injected_before_reply", 1)
 		}
 		// a third of the kills deliver the error in the same Read call as the last
 		// bytes of the reply (io.Reader allows n > 0 with err != nil; crypto/tls does
@@ -388,6 +402,23 @@ func runCell(cl cell) (violated bool) {
 						kind = "reply-lost-timeout"
 					}
 					rep.Violation(kind+"-"+cl.key(), fmt.Sprintf("the reader consumed the reply (%s) at %.3f ms, %.0f ms before the deadline, but the call returned error %q", consumedTk, float64(consumedAt)/1e6, float64(t0+timeout-consumedAt)/1e6, err.Error()), wit)
+				} else if cl.After == "open" {
+					// fault-free cell: the adversary answers every transmission at once and never
+					// breaks the connection, so the reply was available on the connection well
+					// before the deadline. A client that closed the connection (or otherwise gave
+					// up) before reading it lost a reply that had arrived in time.
+					c.mu.Lock()
+					ntok := len(c.tokens)
+					c.mu.Unlock()
+					if ntok > 0 {
+						vmu.Lock()
+						violated = true
+						vmu.Unlock()
+						wit["replies_sent_for_this_call"] = ntok
+						rep.Violation("reply-available-but-never-read-"+cl.key(), fmt.Sprintf("fault-free connection: the server sent %d repl(y/ies) for this call at once, yet the call returned error %q without the reader ever taking them", ntok, err.Error()), wit)
+					} else {
+						rep.Count("calls_failed_before_reaching_the_server", 1)
+					}
 				} else {
 					rep.Count("calls_failed_without_a_consumed_reply(legitimate)", 1)
 				}
@@ -432,7 +463,7 @@ func runCell(cl cell) (violated bool) {
 func runWrap(seed int64, n int) {
 	cl := cell{Transport: "tdc", Stream: false, Mode: "async", After: "open", Callers: 1, Rep: 0, Seed: seed}
 	caselog.Log(map[string]any{"wrap": cl})
-	r := &run{cell: cl, net: fakenet.NewNet(), calls: map[int]*callRec{}, injK: map[injKey]*injRec{}, rng: rand.New(rand.NewSource(seed))}
+	r := &run{cell: cl, net: fakenet.NewNet(), calls: map[int]*callRec{}, injK: map[injKey]*injRec{}, rng: rand.New(rand.NewSource(seed)), noStray: true}
 	curRun.Store(r)
 	defer curRun.Store(nil)
 	ex, closeFn := r.makeExchanger()
@@ -647,6 +678,7 @@ func main() {
 	rep.SetRule("cells = transport{bare conn, pipeline, reuse} x framing x arrival mode{sync: reply consumed and dispatched before Write returns; hold: caller held at the 'written' hook until the reader dispatched; async} x {conn stays open, EOF after reply, read error after reply} x callers{1,2,8,32}, each repeated; one case = one call; non-trivial = the reply was provably consumed before the caller reached its wait (sync/hold handshake completed) or a close/EOF followed the consumed reply; distinct = cell x repetition x caller")
 	rep.Assume("'received on its connection' = the client's reader goroutine took the bytes from the fake connection (recorded at Read return)")
 	rep.Assume("only arrivals >= 200 ms before the deadline are judged; boundary races with the deadline are not generated")
+	rep.Assume("in fault-free cells (the adversary answers at once and never breaks the connection) the reply also counts as received when the client gave up the connection before its reader took the bytes: nothing but the client can have lost it")
 
 	if rep.ReplayFile != "" {
 		var c struct {
